@@ -493,12 +493,57 @@ def visit_lowering(F, rep, T):
         rep.ob("VISIT-lower", "order|Call", seq == [("code", "function"), ("rep", "args")], "callee first, then the arguments in order (%s)" % seq, line_of(call[0]["arm"]))
 
 
+def float_nonfinite(F, rep, T):
+    """IR::Float is written with `{:?}`, which prints a Lua numeral for every finite f64 and the *names* `inf` / `NaN`
+    otherwise - in Lua a read of an undefined global, i.e. nil.  A literal above f64::MAX lexes (digits and a dot) and
+    parses to infinity, so either the front end rejects non-finite literals or the emitter has an arm for them whose
+    text is a Lua expression for infinity."""
+    import luaparse
+    s = T.S.get("Float")
+    debug = bool(s) and any(h[0] == "num-debug" for h in luatpl.holes(s["parts_many"] + (s["value"] or [])))
+    handled = None
+    for name, guard, refs, gs in T.G:
+        if name != "Float":
+            continue
+        calls = [last(callee(c) or "") for c in nodes(guard, "MethodCall")]
+        neg = any(u.get("op") == "Not" for u in nodes(guard, "Unary"))
+        covers_inf = "is_infinite" in calls and not neg or ("is_finite" in calls and neg)
+        on_payload = any(x.get("hid") in refs for x in nodes(guard, "Path"))
+        txt = luatpl.render(gs["value"]) if gs["value"] else gs["text_many"]
+        try:
+            e = luaparse.parse_expr(txt)
+            is_inf = luaparse.show(e).replace(" ", "") in ("math.huge", "(1/0)", "1/0")
+        except luaparse.LuaSyntaxError:
+            is_inf = False
+        if covers_inf and on_payload:
+            handled = (txt, is_inf)
+    # or: the parser refuses a literal that is not finite
+    fv = F.fn("sylt_parser::expression::value")
+    rejects = False
+    for m in nodes(fn_body(fv), "Match"):
+        for arm in m["arms"]:
+            for alt in __import__("hir").pat_alternatives(arm["pat"]):
+                if (__import__("hir").pat_variant(alt) or "").endswith("Token::Float") and arm.get("guard") is not None:
+                    g = arm["guard"]
+                    if any(last(callee(c) or "") in ("is_infinite", "is_finite") for c in nodes(g, "MethodCall")):
+                        rejects = True
+    ok = not debug or rejects or (handled is not None and handled[1])
+    rep.ob("LITERAL", "Float|non-finite", ok,
+           "a float literal that is not finite is %s" % ("rejected by the parser" if rejects else "written as `%s`" % handled[0] if handled else
+                                                        "never formatted with {:?}") if ok else
+           "IR::Float is written with `{:?}`; a literal above f64::MAX (`1` followed by 400 zeros and `.0`) parses to infinity, which "
+           "`{:?}` prints as the name `inf` - an undefined global, nil at run time%s" % (
+               "" if handled is None else " (the guarded arm writes `%s`, which is not an expression for infinity)" % handled[0]),
+           line_of(T.T.arms["Float"]["arm"]) if "Float" in T.T.arms else None)
+
+
 def literals(F, rep, T):
     exp = {"Int": "{num:1}", "Bool": "{num:1}", "Nil": "__NIL", "Float": "{num-debug:1}", "Str": '"{raw:1}"'}
     for op, text in exp.items():
         s = T.S.get(op)
         got = luatpl.render(s["value"]) if s and s["value"] else None
         rep.ob("LITERAL", op, got == text, "IR::%s is written as `%s` (expected `%s`)" % (op, got, text))
+    float_nonfinite(F, rep, T)
     for a in T.expr:
         if a["label"] in ("Int", "Bool", "Float", "Str") and a["items"]:
             ops = [it for it in a["items"] if it[0] == "op"]
